@@ -9,9 +9,11 @@ import (
 	"encoding/hex"
 	"fmt"
 	"math/rand"
+	"runtime"
 	"runtime/debug"
 	"sort"
 	"strings"
+	"sync"
 	"sync/atomic"
 	"time"
 )
@@ -59,6 +61,13 @@ type Prop struct {
 	// dumps one second apart while no other case is being judged, is then a violation ("deadlock") with the
 	// dump as witness; any other stall stays INCONCLUSIVE.
 	DeadlockIsViolation bool
+	// ColdStart: Judge handles the class "coldstart" (empty key): the very first calls into the library made by
+	// a fresh process, issued from several goroutines at the same instant (fw.Burst). Every child process —
+	// the shards and the short-lived cold-start probes — judges it before anything else.
+	ColdStart bool
+	// ColdProbes: number of short-lived cold-start probe processes in the quick tier (default 16; ten times as
+	// many in the thorough tier). Cheap for properties whose generator starts quickly.
+	ColdProbes int
 	// StallClass: shorter limits (seconds) for classes whose cases are known to take microseconds.
 	StallClass map[string]int
 }
@@ -178,9 +187,15 @@ type Gen struct {
 	slot *slot
 	work chan caseItem
 
-	pause   atomic.Bool // set by the stall monitor while it examines a long-running case: no new case is started
-	emitted int64       // index of the next case (generation order)
-	from    int64       // cases with a smaller index are generated but not judged (restart behind a stalled case)
+	burstN   int // > 0: hold back this many first cases and judge them at the same instant
+	burstBuf []caseItem
+	gate     chan struct{} // closed when gateAt cases are queued (parallel mode)
+	gateAt   int64
+	gateOnce sync.Once
+	pause    atomic.Bool // set by the stall monitor while it examines a long-running case: no new case is started
+	emitted  int64       // index of the next case (generation order)
+	limit    int64       // cold-start probes: stop generating after this many cases behind `from`
+	from     int64       // cases with a smaller index are generated but not judged (restart behind a stalled case)
 }
 
 type caseItem struct {
@@ -248,15 +263,36 @@ func (g *Gen) Emit(class string, key []byte) {
 	if idx < g.from {
 		return
 	}
+	if g.burstN > 0 {
+		// the first cases of the process are held back and then judged at the same instant (see flushBurst)
+		g.burstBuf = append(g.burstBuf, caseItem{class, append([]byte(nil), key...), idx})
+		if len(g.burstBuf) >= g.burstN {
+			g.flushBurst()
+		}
+		if g.limit > 0 && idx-g.from+1 >= g.limit {
+			g.flushBurst()
+			panic(limitReached{})
+		}
+		return
+	}
 	for g.pause.Load() {
 		time.Sleep(20 * time.Millisecond)
 	}
 	if g.work != nil {
 		g.work <- caseItem{class, append([]byte(nil), key...), idx}
-		return
+		if idx-g.from+1 >= g.gateAt {
+			g.openGate()
+		}
+	} else {
+		g.run(0, class, key, idx)
 	}
-	g.run(0, class, key, idx)
+	if g.limit > 0 && idx-g.from+1 >= g.limit {
+		panic(limitReached{})
+	}
 }
+
+// limitReached ends the generator of a cold-start probe.
+type limitReached struct{}
 
 func (g *Gen) run(worker int, class string, key []byte, idx int64) {
 	g.slot.begin(worker, class, key, idx)
@@ -275,6 +311,33 @@ func (g *Gen) judge(class string, key []byte) (o *Obs) {
 	}()
 	g.prop.Judge(class, key, o)
 	return o
+}
+
+// flushBurst judges the held-back first cases of the process on as many goroutines, released at the same
+// instant by a spin barrier: the first calls into the library are concurrent ones.
+func (g *Gen) flushBurst() {
+	buf := g.burstBuf
+	g.burstBuf, g.burstN = nil, 0
+	if len(buf) == 0 {
+		return
+	}
+	obs := make([]*Obs, len(buf))
+	for i, it := range buf {
+		g.slot.begin(i, it.class, it.key, it.idx)
+	}
+	Burst(len(buf), func(i int) { obs[i] = g.judge(buf[i].class, buf[i].key) })
+	for i, it := range buf {
+		g.slot.end(i)
+		if obs[i] != nil {
+			g.st.record(g.prop, it.class, it.key, obs[i])
+		}
+	}
+}
+
+func (g *Gen) openGate() {
+	if g.gate != nil {
+		g.gateOnce.Do(func() { close(g.gate) })
+	}
 }
 
 // JudgeOnce judges a single case outside a run (replay).
@@ -358,4 +421,39 @@ func SubRng(seed int64, labels ...string) *rand.Rand {
 		mix(0xff)
 	}
 	return rand.New(rand.NewSource(int64(h)))
+}
+
+// Burst runs f(0..n-1) on n goroutines that are released at the same instant by a spin barrier (no channel or
+// scheduler hand-off between the release and the first instruction of f). A panic in f is returned.
+func Burst(n int, f func(i int)) (panics []interface{}) {
+	var ready, goFlag atomic.Int32
+	var wg sync.WaitGroup
+	panics = make([]interface{}, n)
+	for i := 0; i < n; i++ {
+		wg.Add(1)
+		go func(i int) {
+			defer wg.Done()
+			defer func() { panics[i] = recover() }()
+			runtime.LockOSThread()
+			defer runtime.UnlockOSThread()
+			ready.Add(1)
+			for goFlag.Load() == 0 {
+			}
+			f(i)
+		}(i)
+	}
+	for ready.Load() < int32(n) {
+		runtime.Gosched()
+	}
+	time.Sleep(200 * time.Microsecond) // let every goroutine reach its spin loop on its own thread
+	goFlag.Store(1)
+	wg.Wait()
+	any := false
+	for _, p := range panics {
+		any = any || p != nil
+	}
+	if !any {
+		return nil
+	}
+	return panics
 }
